@@ -256,6 +256,34 @@ def case_tcoll(ctx, cfg):
     if e is not None or not all(proj_eq(prod.array[i], np.eye(dim + 1)) for i in range(len(names))):
         ctx.fail("tcoll:t*t.inverse", "tc*tc.inverse()", {"dim": dim}, "identities", e if e is not None else prod.array)
         return
+    # compositions that mix a single transformation with a collection (both orders), two different collections, and
+    # collections with two axes: position by position the exact matrix product
+    Ms = [gens[nm] for nm in names]
+    k = len(Ms) - len(Ms) % 2
+    for sname in ("shear", "proj", "rot345"):
+        S = gens[sname]
+        s1 = G.Transformation(XF.mat_np(S))
+        tc_rev = G.TransformationCollection(np.stack([XF.mat_np(M) for M in Ms[::-1]]))
+        tc_grid = G.TransformationCollection(np.stack([XF.mat_np(M) for M in Ms[:k]]).reshape(2, k // 2, dim + 1, dim + 1))
+        forms = (
+            ("single*collection", lambda: s1 * tc, [X.matmul(S, M) for M in Ms], (len(Ms),)),
+            ("collection*single", lambda: tc * s1, [X.matmul(M, S) for M in Ms], (len(Ms),)),
+            ("collection*collection", lambda: tc * tc_rev, [X.matmul(M, N) for M, N in zip(Ms, Ms[::-1])], (len(Ms),)),
+            ("single*grid", lambda: s1 * tc_grid, [X.matmul(S, M) for M in Ms[:k]], (2, k // 2)),
+            ("grid*single", lambda: tc_grid * s1, [X.matmul(M, S) for M in Ms[:k]], (2, k // 2)),
+            ("grid*grid", lambda: tc_grid * tc_grid, [X.matmul(M, M) for M in Ms[:k]], (2, k // 2)),
+        )
+        for label, fn, wants, shp in forms:
+            r, e = ctx.call(fn)
+            ctx.trace(len(wants))
+            ctx.state((dim, "compose", sname, label))
+            ok = e is None and type(r) is G.TransformationCollection and r.array.shape == shp + (dim + 1, dim + 1)
+            if ok:
+                flat = r.array.reshape((-1, dim + 1, dim + 1))
+                ok = all(proj_eq(flat[i], XF.mat_np(W)) for i, W in enumerate(wants))
+            if not ok:
+                ctx.fail(f"tcoll:compose:{label}", label, {"dim": dim, "single": sname}, "position-wise matrix products", e if e is not None else r.array)
+                return
     # a collection of transformations applied to single points / hyperplanes / quadrics: broadcast
     for d in XF.pool(dim):
         if d[0] not in ("point", "hyper", "quadric", "line3"):
